@@ -40,10 +40,23 @@ func runC01(o opts) error {
 			nrand, nchain = 12000, 0
 		}
 		for i := 0; i < nrand; i++ {
-			scns = append(scns, c01.GenRandom(rng, 2+rng.Intn(5)))
+			sc := c01.GenRandom(rng, 2+rng.Intn(5))
+			if i%2 == 0 {
+				// something else moved, reshaped, hid or showed the terminal's cursor before every
+				// Refresh and size change
+				sc = c01.WithForeignCursor(rng, sc)
+			}
+			scns = append(scns, sc)
 		}
 		scns = append(scns, c01.GenChains(rng, o.tier == "thorough", nchain)...)
 		scns = append(scns, c01.Fixed()...)
+		// a cell set on a column of a wide character, a wide character set over cells: both orders, in
+		// one frame and in two
+		pick := 5
+		if o.tier == "thorough" {
+			pick = 1
+		}
+		scns = append(scns, c01.GenOverlap(rng, pick)...)
 		// neighbouring cells whose texts would form one grapheme cluster (regional indicators, Hangul
 		// jamo, Prepend + letter, letter + spacing mark or emoji modifier): a terminal that segments
 		// clusters itself - the reference terminal does, for the capability sets that say so - must
